@@ -184,19 +184,29 @@ fn check_point(r: &Rec, hol: &ContextHolidays, loc: &Option<TzLocation<Tz>>, pt:
     let obs = pt.get("obs").cloned().unwrap_or(Value::Null);
     let input = dec_dt(pt.get("dt").unwrap_or(&Value::Null)).ok_or_else(|| viol("driver_record_unreadable", r, pt.clone(), "bad dt".into()))?;
     let end_in = dec_dt(pt.get("end").unwrap_or(&Value::Null));
+    let fixed = pt.get("dt").and_then(|d| d.get("fixed")).and_then(|f| f.as_bool()).unwrap_or(false) || end_in.as_ref().map(|_| pt.get("end").and_then(|d| d.get("fixed")).and_then(|f| f.as_bool()).unwrap_or(false)).unwrap_or(false);
     // no call may surface a Rust panic or an unexpected exception
     for (name, o) in obs.as_object().into_iter().flatten() {
         if let Some(e) = o.get("exc").and_then(|x| x.as_str()) {
-            let kind = if e == "PanicException" { "rust_panic_surfaced_in_python" } else { "unexpected_python_exception" };
-            // a nonexistent aware datetime may legitimately be refused by the conversion layer
+            let mut kind = if e == "PanicException" { "rust_panic_surfaced_in_python" } else { "unexpected_python_exception" };
+            // "every datetime (naive or aware)": an aware datetime that Python accepts as an instant must be
+            // evaluated. Two input classes are refused by the conversion layer; each gets its own kind
+            // (these are the shapes the known-findings file lists), anything else keeps the general kind
             if kind == "unexpected_python_exception" && is_gap_input(&input) {
-                continue;
+                kind = "aware_datetime_in_skipped_hour_rejected";
+            } else if kind == "unexpected_python_exception" && fixed {
+                kind = "aware_datetime_with_fixed_offset_tzinfo_rejected";
             }
             return Err(viol(kind, r, json!({"method": name, "dt": pt.get("dt")}), format!("{name}({}) raised {e}: {}", pt.get("dt").unwrap_or(&Value::Null), o.get("msg").and_then(|m| m.as_str()).unwrap_or(""))));
         }
     }
     if is_gap_input(&input) {
         acc.add("gap_inputs_checked_for_panics_only", 1);
+        return Ok(());
+    }
+    if fixed {
+        // accepted (a future version): only the state is compared, at the wall-clock time of the instant
+        acc.add("fixed_offset_inputs_accepted", 1);
         return Ok(());
     }
     let Some((t, out_tz)) = eval_time(loc, &input) else { return Ok(()) };
@@ -338,9 +348,14 @@ pub fn check_record(rec: &Value, acc: &mut Acc) {
                     Err(p) => Err(viol("core_panic", &r, pt.clone(), format!("the core panicked on the equivalent call: {} at {}", p.msg, p.loc))),
                 };
                 if let Err(v) = res {
+                    // the two refused input classes are properties of the datetime alone: the other points of
+                    // the record are still checked (nothing is masked behind them)
+                    let local_to_point = v.kind == "aware_datetime_in_skipped_hour_rejected" || v.kind == "aware_datetime_with_fixed_offset_tzinfo_rejected";
                     acc.violate(v);
                     all_ok = false;
-                    break;
+                    if !local_to_point {
+                        break;
+                    }
                 }
             }
             if all_ok {
@@ -384,7 +399,26 @@ pub fn run(_cfg: &Cfg) -> Outcome {
 }
 
 pub fn replay(_cfg: &Cfg, case: &Value) -> Vec<Violation> {
-    // a C12 violation is replayed by re-running the whole check (the observation comes from CPython)
-    let _ = case;
-    vec![]
+    // a C12 violation is replayed by re-running the whole check (the observation comes from CPython).
+    // A known-finding witness names a failure kind and a datetime: it still fails iff the current
+    // observation file (written by the driver just before the engine runs) still shows that kind there.
+    let Some(kind) = case.get("kind").and_then(|k| k.as_str()) else { return vec![] };
+    let want_dt = case.get("dt_local").and_then(|k| k.as_str());
+    let path = std::env::var("OHMC_C12_OBS").unwrap_or_default();
+    let Ok(text) = std::fs::read_to_string(&path) else { return vec![] };
+    let mut acc = Acc::new();
+    for line in text.lines() {
+        if let Ok(rec) = serde_json::from_str::<Value>(line) {
+            if rec.get("part").and_then(|p| p.as_str()) == Some("B") {
+                check_record(&rec, &mut acc);
+            }
+        }
+    }
+    acc.groups
+        .into_iter()
+        .filter(|((k, _), _)| k == kind)
+        .flat_map(|(_, g)| g.examples)
+        .filter(|v| want_dt.map(|w| v.case.to_string().contains(w)).unwrap_or(true))
+        .take(1)
+        .collect()
 }
